@@ -8,6 +8,8 @@ import BddVerif.Lemmas.AlgoEq2RenDriver
 #print axioms B.Props.C09.exact_card_red
 #print axioms B.Props.C09.exact_card_le
 #print axioms B.Props.C09.clause_card_spec
+#print axioms B.Props.C09.clause_card_eq_iterator_count
+#print axioms B.Props.C09.clause_card_eq_iterator_count_canonical
 #print axioms B.Props.C09.card_or_and
 #print axioms B.Props.C09.card_not
 #print axioms B.Props.C09.exact_card_apply
